@@ -6,10 +6,24 @@ import threading
 from . import common as C
 
 
-def run_docs(api=None, xml=None):
+def run_docs(api=None, xml=None, n=None, by_tag=False, xml_tags=None):
+    """by_tag: documents with the same root tag are parsed by the SAME process, one after the other (state the parser keeps between
+    documents is then exercised with every value shape of that element); whole scores are spread"""
     api, xml = api or [], xml or []
-    n = C.NPROC
-    jobs = [{'api': api[i::n], 'xml': xml[i::n]} for i in range(n)]
+    n = n or C.NPROC
+    if by_tag:
+        import zlib
+        where = [(zlib.crc32(d['tag'].encode()) % n) if d['tag'] != 'score-partwise' else (k % n) for k, d in enumerate(api)]
+        idx = [[k for k in range(len(api)) if where[k] == i] for i in range(n)]
+    else:
+        idx = [list(range(i, len(api), n)) for i in range(n)]
+    if xml_tags is not None:
+        import zlib
+        wx = [(zlib.crc32(t.encode()) % n) if t != 'score-partwise' else (k % n) for k, t in enumerate(xml_tags)]
+        xidx = [[k for k in range(len(xml)) if wx[k] == i] for i in range(n)]
+    else:
+        xidx = [list(range(i, len(xml), n)) for i in range(n)]
+    jobs = [{'api': [api[k] for k in idx[i]], 'xml': [xml[k] for k in xidx[i]]} for i in range(n)]
     outs = [None] * n
 
     def work(i):
@@ -29,7 +43,7 @@ def run_docs(api=None, xml=None):
     ra, rx_ = [None] * len(api), [None] * len(xml)
     for i in range(n):
         for j, v in enumerate(outs[i]['api']):
-            ra[i + j * n] = v
+            ra[idx[i][j]] = v
         for j, v in enumerate(outs[i]['xml']):
-            rx_[i + j * n] = v
+            rx_[xidx[i][j]] = v
     return ra, rx_
